@@ -89,3 +89,230 @@ Proof.
   replace (/ 2 * / IZR (10 ^ d) * (IZR (fden r) * IZR (10 ^ d))) with (IZR (fden r) / 2) in H by (field; lra).
   lra.
 Qed.
+
+Close Scope R_scope.
+
+(* ---- scaled numbers ---- *)
+Lemma check_near_cases : forall v r, check_near v r = [] \/ check_near v r = [CL_NEAR].
+Proof.
+  intros v r. unfold check_near. destruct (is_finite v && mag_below v 14); [destruct (near4 r v)|]; auto.
+Qed.
+
+Lemma excused_near : forall v r, excused (check_near v r) [CL_NEAR] = true.
+Proof. intros v r. destruct (check_near_cases v r) as [-> | ->]; reflexivity. Qed.
+
+Lemma check_near_ok : forall v : b64, (Rabs (B2R v) <= IZR (10 ^ 11))%R ->
+  let '(n, s) := new_scaled v in check_near v (get_value n s) = [].
+Proof.
+  intros v HV. unfold check_near.
+  destruct (is_finite v) eqn:Fv.
+  - pose proof (scaled_near v Fv HV) as H. destruct (new_scaled v) as [n s]. destruct H as [H1 H2].
+    rewrite (near4_real _ _ H1 H2). destruct (true && mag_below v 14); reflexivity.
+  - destruct (new_scaled v) as [n s]. reflexivity.
+Qed.
+
+Lemma scaled_step_ok : forall v, excused (snd (mon tt (OScaled v) (snd (step tt (OScaled v))))) (excuses (scope [] (OScaled v))) = true.
+Proof.
+  intros v. unfold step, mon, scope, excuses. cbn [snd].
+  destruct (mag_le v 11) eqn:Hm.
+  - pose proof (check_near_ok v (mag_le_real v 11 ltac:(lia) Hm)) as H.
+    destruct (new_scaled v) as [n s]. cbn [snd]. rewrite H. reflexivity.
+  - destruct (new_scaled v) as [n s]. cbn [snd]. apply excused_near.
+Qed.
+
+Lemma dec_real : forall k d, (0 <= d)%Z -> (Z.abs k <= 10 ^ (11 + d))%Z -> (Rabs (B2R (dec k d)) <= IZR (10 ^ 11))%R.
+Proof.
+  intros k d Hd Hk.
+  assert (Hp : (0 < 10 ^ d)%Z) by (apply Z.pow_pos_nonneg; lia).
+  assert (Hq : (Rabs (IZR k / IZR (Zpos (pos10 d))) <= IZR (10 ^ 11))%R).
+  { rewrite pos10_val by exact Hd. apply frac_abs_le. exact Hp. apply Z.pow_nonneg; lia.
+    rewrite <- Z.pow_add_r by lia. exact Hk. }
+  destruct (RNdiv_real k (pos10 d)) as [V1 _].
+  { apply Rle_trans with (1 := Hq). apply IZR_le. vm_compute. discriminate. }
+  unfold dec. rewrite V1.
+  apply abs_round_le_generic; auto with typeclass_instances.
+  apply format_small_int. vm_compute. discriminate.
+Qed.
+
+Lemma decimal_step_ok : forall k d,
+  excused (snd (mon tt (ODecimal k d) (snd (step tt (ODecimal k d))))) (excuses (scope [] (ODecimal k d))) = true.
+Proof.
+  intros k d. unfold step, mon, scope, excuses. cbn [snd].
+  (* the two decimal clauses *)
+  assert (HD : dec_domain k d = true ->
+    let '(n, s) := new_scaled (dec k d) in repr_exact n s k d = true /\ back_close (get_value n s) k d = true).
+  { intros Hdom. unfold dec_domain in Hdom. apply andb_prop in Hdom. destruct Hdom as [Hdom H3].
+    apply andb_prop in Hdom. destruct Hdom as [H1 H2].
+    apply Z.leb_le in H1. apply Z.leb_le in H2. apply Z.ltb_lt in H3.
+    pose proof (decimal_roundtrip k d (conj H1 H2) H3) as H. destruct (new_scaled (dec k d)) as [n s].
+    destruct H as [[Ha Hb] [Hc He]]. split.
+    - unfold repr_exact. apply andb_true_intro. split. apply Z.leb_le. exact Ha. apply Z.eqb_eq. exact Hb.
+    - apply back_close_real; assumption. }
+  destruct ((0 <=? d) && (Z.abs k <=? 10 ^ (11 + d)))%Z eqn:Hs.
+  - apply andb_prop in Hs. destruct Hs as [Hs1 Hs2]. apply Z.leb_le in Hs1. apply Z.leb_le in Hs2.
+    pose proof (check_near_ok (dec k d) (dec_real k d Hs1 Hs2)) as Hn.
+    destruct (new_scaled (dec k d)) as [n s]. cbn [snd]. rewrite Hn.
+    destruct (dec_domain k d); [|reflexivity]. destruct (HD eq_refl) as [-> ->]. reflexivity.
+  - destruct (new_scaled (dec k d)) as [n s]. cbn [snd].
+    destruct (dec_domain k d).
+    + destruct (HD eq_refl) as [-> ->]. cbn [app]. apply excused_near.
+    + cbn [app]. apply excused_near.
+Qed.
+
+(* ---- durations ---- *)
+Lemma duration_step_ok : forall ns,
+  excused (snd (mon tt (ODuration ns) (snd (step tt (ODuration ns))))) (excuses (scope [] (ODuration ns))) = true.
+Proof.
+  intros ns. unfold step, mon, scope, excuses. cbn [snd].
+  destruct (Z.ltb_spec (Z.abs ns) DUR_LIMIT) as [Hl|Hl].
+  - destruct (Z.eqb_spec (Z.rem ns NS_100MS) 0) as [Hr|Hr]; [|reflexivity].
+    rewrite (duration_roundtrip ns Hr Hl). rewrite Z.eqb_refl. reflexivity.
+  - destruct (Z.rem ns NS_100MS =? 0); [|reflexivity].
+    destruct (get_duration (new_duration ns)) as [b|]; [destruct (b =? ns)|]; reflexivity.
+Qed.
+
+(* ---- instants ---- *)
+Lemma instant_step_ok : forall sec nsec,
+  excused (snd (mon tt (OInstant sec nsec) (snd (step tt (OInstant sec nsec))))) (excuses (scope [] (OInstant sec nsec))) = true.
+Proof.
+  intros sec nsec. unfold step, mon, scope, excuses. cbn [snd].
+  destruct ((nsec =? 0) && (UNIX_YEAR_0 <=? sec) && (sec <? UNIX_YEAR_10000)) eqn:Hc; [|reflexivity].
+  apply andb_prop in Hc. destruct Hc as [Hc H3]. apply andb_prop in Hc. destruct Hc as [H1 H2].
+  apply Z.eqb_eq in H1. apply Z.leb_le in H2. apply Z.ltb_lt in H3. subst nsec.
+  rewrite (instant_roundtrip sec (conj H2 H3)). rewrite Z.eqb_refl. reflexivity.
+Qed.
+
+(* ---- relative end of a time period ---- *)
+Lemma remaining_ok_intro : forall dur t0 t1 es r,
+  Z.abs (es * NS_SECOND - (t0 + dur)) * 2 <= NS_SECOND ->
+  Z.rem r NS_SECOND = 0 -> Z.abs (r - (es * NS_SECOND - t1)) * 2 <= NS_SECOND ->
+  remaining_ok dur t0 t1 r = true.
+Proof.
+  intros dur t0 t1 es r H1 H2 H3. unfold remaining_ok. rewrite H2, Z.eqb_refl. cbn [andb].
+  apply Z.leb_le. unfold NS_SECOND in *. lia.
+Qed.
+
+Lemma relend_step_ok : forall variant dur t0 t1,
+  excused (snd (mon tt (ORelEnd variant dur t0 t1) (snd (step tt (ORelEnd variant dur t0 t1)))))
+          (excuses (scope [] (ORelEnd variant dur t0 t1))) = true.
+Proof.
+  intros variant dur t0 t1. unfold step, scope, excuses. cbn [snd].
+  destruct (Z.eqb_spec variant 0) as [Hv|Hv].
+  - subst variant. cbn [andb].
+    destruct (Z.ltb_spec (Z.abs dur + Z.abs (t1 - t0) + NS_SECOND) DUR_LIMIT) as [Hl|Hl]; cbn [negb].
+    + (* in range: everything is exact *)
+      assert (Hl' : Z.abs dur < 3277 * (24 * NS_HOUR)) by (unfold DUR_LIMIT, NS_DAY, NS_SECOND in Hl; lia).
+      rewrite (duration_truncates dur Hl').
+      set (d' := Z.quot dur NS_100MS * NS_100MS).
+      destruct (get_time (abs_end t0 d')) as [es|] eqn:Hg.
+      * unfold mon. cbn [snd]. rewrite Z.eqb_refl. cbn [andb].
+        destruct (Z.eqb_spec (Z.rem dur NS_100MS) 0) as [Hm|Hm]; cbn [andb]; [|reflexivity].
+        destruct (end_in_range (t0 + dur)) eqn:He; [|reflexivity].
+        assert (Ed : d' = dur).
+        { unfold d'. pose proof (Z.quot_rem' dur NS_100MS). lia. }
+        rewrite Ed in Hg.
+        destruct (abs_end_readable t0 dur He) as [es' [Hg' Hb]]. rewrite Hg in Hg'. injection Hg' as <-.
+        destruct (round_half_away_spec (es * NS_SECOND - t1)) as [R1 R2].
+        set (r := round_half_away (es * NS_SECOND - t1) NS_SECOND) in *.
+        assert (Hr100 : Z.rem r NS_100MS = 0).
+        { pose proof (Z.quot_rem' r NS_SECOND) as Hq. rewrite R1 in Hq.
+          replace r with (NS_100MS * (10 * Z.quot r NS_SECOND)) by (unfold NS_SECOND, NS_100MS in *; lia).
+          rewrite Z.mul_comm. apply Z.rem_mul. unfold NS_100MS. lia. }
+        assert (Hrl : Z.abs r < 3277 * (24 * NS_HOUR)).
+        { unfold DUR_LIMIT, NS_DAY, NS_SECOND in *. lia. }
+        rewrite (duration_roundtrip r Hr100 Hrl).
+        rewrite (remaining_ok_intro dur t0 t1 es r Hb R1 R2). reflexivity.
+      * unfold mon. cbn [snd]. rewrite Z.eqb_refl. cbn [andb].
+        destruct (Z.eqb_spec (Z.rem dur NS_100MS) 0) as [Hm|Hm]; cbn [negb orb]; [|reflexivity].
+        assert (Ed : d' = dur).
+        { unfold d'. pose proof (Z.quot_rem' dur NS_100MS). lia. }
+        rewrite Ed in Hg.
+        destruct (end_in_range (t0 + dur)) eqn:He; [|reflexivity].
+        destruct (abs_end_readable t0 dur He) as [es' [Hg' _]]. congruence.
+    + (* beyond 3277 days: recorded finding, only the shape matters *)
+      destruct (get_duration (new_duration dur)) as [d'|].
+      * destruct (get_time (abs_end t0 d')) as [es|].
+        -- unfold mon. cbn [snd]. rewrite Z.eqb_refl. cbn [andb].
+           destruct ((Z.rem dur NS_100MS =? 0) && end_in_range (t0 + dur)); [|reflexivity].
+           destruct (get_duration _) as [b|]; [destruct (remaining_ok dur t0 t1 b)|]; reflexivity.
+        -- unfold mon. cbn [snd].
+           destruct (_ || _); reflexivity.
+      * unfold mon. cbn [snd]. destruct (_ || _); reflexivity.
+  - (* NewTimePeriodTypeWithRelativeEndTime / GetDuration: no duration text involved *)
+    cbn [andb].
+    destruct (get_time (abs_end t0 dur)) as [es|] eqn:Hg.
+    + unfold mon. cbn [snd]. replace (variant =? 0) with false by (symmetry; apply Z.eqb_neq; exact Hv).
+      destruct (end_in_range (t0 + dur)) eqn:He; [|reflexivity].
+      destruct (abs_end_readable t0 dur He) as [es' [Hg' Hb]]. rewrite Hg in Hg'. injection Hg' as <-.
+      destruct (round_half_away_spec (es * NS_SECOND - t1)) as [R1 R2].
+      rewrite (remaining_ok_intro dur t0 t1 es _ Hb R1 R2). reflexivity.
+    + unfold mon. cbn [snd]. replace (variant =? 0) with false by (symmetry; apply Z.eqb_neq; exact Hv).
+      cbn [andb orb].
+      destruct (end_in_range (t0 + dur)) eqn:He; [|reflexivity].
+      destruct (abs_end_readable t0 dur He) as [es' [Hg' _]]. congruence.
+Qed.
+
+(* ---- every step, every history ---- *)
+Lemma step_ok : forall s o,
+  excused (snd (mon tt o (snd (step tt o)))) (excuses (scope s o)) = true.
+Proof.
+  intros s o. replace (scope s o) with (scope [] o) by (destruct o; reflexivity).
+  destruct o.
+  - apply scaled_step_ok.
+  - apply decimal_step_ok.
+  - apply duration_step_ok.
+  - apply instant_step_ok.
+  - apply relend_step_ok.
+Qed.
+
+Lemma run_accepted_from : forall ops m s, accepted (judge m s (snd (run tt ops))) = true.
+Proof.
+  induction ops as [|o ops IH]; intros m s.
+  - reflexivity.
+  - cbn [run]. destruct (step tt o) as [s1 out] eqn:Es. destruct s1.
+    specialize (IH tt (scope s o)).
+    destruct (run tt ops) as [s2 tr]. cbn [snd judge] in *.
+    destruct (mon m o out) as [m1 v] eqn:Em. destruct m, m1.
+    unfold accepted in *. cbn [forallb fst snd].
+    pose proof (step_ok s o) as H. rewrite Es in H. cbn [snd] in H. rewrite Em in H. cbn [snd] in H.
+    rewrite H. cbn [andb]. exact IH.
+Qed.
+
+Theorem run_accepted : forall ops, accepted (judge minit sinit (snd (run init ops))) = true.
+Proof. intros ops. apply run_accepted_from. Qed.
+
+(* ---- explicit corollaries ---- *)
+
+(* the relative end of a time period, as a statement about the observation *)
+Lemma relative_end_json : forall dur t0 t1,
+  Z.rem dur NS_100MS = 0 -> Z.abs dur + Z.abs (t1 - t0) + NS_SECOND < DUR_LIMIT ->
+  end_in_range (t0 + dur) = true ->
+  exists e t r, snd (step tt (ORelEnd 0 dur t0 t1)) = [RelEnd e t (Some r)] /\
+    Z.rem r NS_SECOND = 0 /\ Z.abs (r - (dur - (t1 - t0))) <= NS_SECOND.
+Proof.
+  intros dur t0 t1 Hm Hl He. unfold step. cbn [snd]. rewrite Z.eqb_refl.
+  assert (Hl' : Z.abs dur < 3277 * (24 * NS_HOUR)) by (unfold DUR_LIMIT, NS_DAY, NS_SECOND in Hl; lia).
+  rewrite (duration_roundtrip dur Hm Hl').
+  destruct (abs_end_readable t0 dur He) as [es [Hg Hb]]. rewrite Hg.
+  destruct (round_half_away_spec (es * NS_SECOND - t1)) as [R1 R2].
+  set (r := round_half_away (es * NS_SECOND - t1) NS_SECOND) in *.
+  assert (Hr100 : Z.rem r NS_100MS = 0).
+  { pose proof (Z.quot_rem' r NS_SECOND) as Hq. rewrite R1 in Hq.
+    replace r with (NS_100MS * (10 * Z.quot r NS_SECOND)) by (unfold NS_SECOND, NS_100MS in *; lia).
+    rewrite Z.mul_comm. apply Z.rem_mul. unfold NS_100MS. lia. }
+  assert (Hrl : Z.abs r < 3277 * (24 * NS_HOUR)) by (unfold DUR_LIMIT, NS_DAY, NS_SECOND in *; lia).
+  rewrite (duration_roundtrip r Hr100 Hrl).
+  exists (abs_end t0 dur), (new_duration r), r. split. reflexivity. split. exact R1.
+  unfold NS_SECOND in *. lia.
+Qed.
+
+Lemma relative_end_direct : forall variant dur t0 t1, variant <> 0 -> end_in_range (t0 + dur) = true ->
+  exists e r, snd (step tt (ORelEnd variant dur t0 t1)) = [RelDirect e r] /\
+    Z.rem r NS_SECOND = 0 /\ Z.abs (r - (dur - (t1 - t0))) <= NS_SECOND.
+Proof.
+  intros variant dur t0 t1 Hv He. unfold step. cbn [snd].
+  replace (variant =? 0) with false by (symmetry; apply Z.eqb_neq; exact Hv).
+  destruct (abs_end_readable t0 dur He) as [es [Hg Hb]]. rewrite Hg.
+  destruct (round_half_away_spec (es * NS_SECOND - t1)) as [R1 R2].
+  eexists _, _. split. reflexivity. split. exact R1. unfold NS_SECOND in *. lia.
+Qed.
